@@ -11,6 +11,9 @@ static CAP: AtomicUsize = AtomicUsize::new(0);
 unsafe impl GlobalAlloc for Counting {
     unsafe fn alloc(&self, l: Layout) -> *mut u8 {
         MAX_REQ.fetch_max(l.size(), Ordering::Relaxed);
+        if refused(l.size()) {
+            return std::ptr::null_mut();
+        }
         System.alloc(l)
     }
     unsafe fn dealloc(&self, p: *mut u8, l: Layout) {
@@ -18,12 +21,23 @@ unsafe impl GlobalAlloc for Counting {
     }
     unsafe fn alloc_zeroed(&self, l: Layout) -> *mut u8 {
         MAX_REQ.fetch_max(l.size(), Ordering::Relaxed);
+        if refused(l.size()) {
+            return std::ptr::null_mut();
+        }
         System.alloc_zeroed(l)
     }
     unsafe fn realloc(&self, p: *mut u8, l: Layout, n: usize) -> *mut u8 {
         MAX_REQ.fetch_max(n, Ordering::Relaxed);
+        if refused(n) {
+            return std::ptr::null_mut();
+        }
         System.realloc(p, l, n)
     }
+}
+
+fn refused(n: usize) -> bool {
+    let cap = CAP.load(Ordering::Relaxed);
+    cap != 0 && n >= cap
 }
 
 /// Returns the largest request since the last reset and resets the counter.
